@@ -156,15 +156,17 @@ def r123(ctx):
         got = {}
         custom = None
         for a in ms[0]['arms']:
-            pt = H.pat_term(a['pat'])
-            v = H.term(a['body'])
+            pt = H.pat_term(a['pat'], True)
             name = pt.split('::')[-1]
             if name.startswith('Custom'):
-                custom = (pt, v)
+                # the arm hands back exactly what Custom carries (whatever the binding is called)
+                b = H.pat_bindings(a['pat'])
+                body = H.peel(a['body'])
+                custom = (pt, len(b) == 1 and body.get('k') == 'Local' and body['id'] == b[0]['id'])
             else:
-                got[name] = v
+                got[name] = H.term(a['body'])
         r.eq('ExchangeType::as_ref:names', got, want, ctx.site(fnp))
-        r.check('ExchangeType::as_ref:custom', custom is not None and custom[1] == 's' and custom[0].endswith('Custom(s)'), ctx.site(fnp), built=custom,
+        r.check('ExchangeType::as_ref:custom', custom is not None and custom[1] is True and custom[0].endswith('Custom(_)'), ctx.site(fnp), built=custom,
                 expected='Custom(s) => s')
 
 
